@@ -4,6 +4,7 @@ from construct.core import Switch
 from construct.expr import this
 
 from smpl_extract.util.fat import RequestedInvalidSector
+from smpl_extract.util.stream import SectorReadError
 
 from .data_types import FileType
 from .data_types import InvalidCharacter
@@ -40,7 +41,7 @@ class FileAdapter(Subconstruct):
                 stream, 
                 **context
             )
-        except (RequestedInvalidSector, InvalidCharacter) as e:
+        except (RequestedInvalidSector, InvalidCharacter, SectorReadError) as e:
             raise ConstructError from e
 
         return file
